@@ -372,11 +372,13 @@ def remove_dot_segments(path):
 
 # ---------------------------------------------------------------- RFC 7252 6.4
 
-Decomp = namedtuple("Decomp", "scheme host uri_host uri_host_alt port effport path query has_query path_literal")
+Decomp = namedtuple("Decomp", "scheme host uri_host uri_host_alt port effport path query has_query path_literal escaped_dots")
 # host: Host (name value = Uri-Host); uri_host: option value or None for IP literals; uri_host_alt: the
 # other order of "lower-case" and "percent-decode" (equivalent host, differs only for escaped upper-case letters);
 # port: int or None as written; effport: port or the scheme default; path/query: tuples of text;
-# path_literal: the segments if dot segments were NOT removed (== path when there are none)
+# path_literal: the segments if dot segments were NOT removed (== path when there are none);
+# escaped_dots: a segment is written %2E / %2E%2E / .%2E ...: RFC 7252 contradicts itself there (6.4 step 2 removes only
+# literal dot segments, 5.10.1 forbids the resulting option values), callers should not judge such text
 
 
 def _segments(path):
@@ -403,6 +405,7 @@ def decompose(text, iri=False):
     if p.userinfo is not None:
         raise Reject("userinfo")
     if p.port is not None and any(c not in DIGIT for c in p.port):
+        _check_chars(p.port, REGNAME + ":", "port", iri)  # characters no URI can contain: not a URI at all
         raise Reject("port-non-numeric")
     host = parse_host(p.host, iri)
     if host.kind == "name":
@@ -420,7 +423,8 @@ def decompose(text, iri=False):
     query = ()
     if p.query is not None:
         query = tuple(pct_decode_text(a) for a in p.query.split("&"))
-    return Decomp(scheme, host, uri_host, uri_host_alt, port, port if port is not None else DEFAULT_PORT[scheme], path, query, p.query is not None, path_literal)
+    escaped_dots = any("%" in raw and dec in (".", "..") for raw, dec in zip(p.path.split("/")[1:], path_literal))
+    return Decomp(scheme, host, uri_host, uri_host_alt, port, port if port is not None else DEFAULT_PORT[scheme], path, query, p.query is not None, path_literal, escaped_dots)
 
 
 def classify(text):
@@ -606,6 +610,8 @@ def selftest():
     assert d.scheme == "coaps+tcp" and d.uri_host == "hAb.example" and d.uri_host_alt == "hab.example" and d.port == 5684 and d.path == ("a/b", "") and d.query == ("x=&", "", "y")
     assert decompose("coap://h").path == () and decompose("coap://h/").path == () and decompose("coap://h//").path == ("", "")
     assert decompose("coap://h/?").query == ("",) and decompose("coap://h/?").has_query and not decompose("coap://h/").has_query
+    assert decompose("coap://h/a/%2E%2e/b").escaped_dots and not decompose("coap://h/a/../b%2E").escaped_dots
+    assert classify("coap://h:1 2/")[0] == "notauri" and classify("coap://h:1a/") == ("reject", "port-non-numeric")
     assert decompose("coap://h/a/../b/./c").path == ("b", "c") and decompose("coap://h/a/../b/./c").path_literal == ("a", "..", "b", ".", "c")
     d = decompose("coap://[FE80::0001%25eth0]:1/")
     assert d.host == Host("ipv6", "[FE80::0001%25eth0]", 0xFE80 << 112 | 1, "eth0") and d.uri_host is None
